@@ -113,6 +113,9 @@ func c19Run(e *vh.Env, c c19Case, o *vh.Out) {
 			shutdownGracefully(sys.Srv, sys.LB, shutdownTimeout)
 		}
 	}
+	var firstOnce sync.Once
+	var firstReturnAt int64
+	firstKept := false
 	finished := make(chan struct{})
 	go func() {
 		defer close(finished)
@@ -124,7 +127,20 @@ func c19Run(e *vh.Env, c c19Case, o *vh.Out) {
 			var wg sync.WaitGroup
 			for i := 0; i < 2; i++ {
 				wg.Add(1)
-				go func() { defer wg.Done(); call() }()
+				go func() {
+					defer wg.Done()
+					call()
+					// whichever call returns first: the shutdown is over for its caller
+					firstOnce.Do(func() {
+						firstReturnAt = vh.NowNS()
+						if c.Pool != 0 && panicked == "" {
+							late := &fakeConn{id: 98}
+							kept := sys.LB.VerifWSPool().Put("b0", late)
+							idle, _ := sys.LB.VerifWSPool().Stats("b0")
+							firstKept = (kept || idle > 0) && !late.isClosed()
+						}
+					})
+				}()
 			}
 			wg.Wait()
 		default:
@@ -139,10 +155,17 @@ func c19Run(e *vh.Env, c c19Case, o *vh.Out) {
 	}
 	took := time.Since(t0)
 	returnedAt := vh.NowNS()
+	if firstReturnAt != 0 {
+		returnedAt = firstReturnAt // of two concurrent calls the first to return counts
+	}
 	o.Eval(1)
 	o.Obs("shutdowns", 1)
 	if panicked != "" {
 		o.Viol("C19|panic|"+c.Mode, fmt.Sprintf("%s: shutdown panicked: %s", ctx, panicked), nil)
+		return
+	}
+	if firstKept {
+		o.Viol("C19|pool-keeps-conn-after-shutdown|first-of-two", fmt.Sprintf("%s: one of two concurrent shutdown calls had returned, and a connection handed to the pool at that moment was accepted and stays open", ctx), nil)
 		return
 	}
 	// the in-flight request needs ReqMs-lead after the signal; anything beyond that and the configured timeout is too long
